@@ -179,7 +179,7 @@ Proof.
     intros v. cbn [okc]. destruct (v =? 1).
     + apply ok_heap_set_len. intros l'. split; [exact Hs|]. split; [cbn [holds g_refs g_free]; auto|].
       intros x. cbn [g_refs nm]. reflexivity.
-    + set (g1 := {| g_refs := g_refs g; g_excl := setf (g_excl g) b (g_excl g b || false); g_free := g_free g; g_fen := g_fen g |}).
+    + set (g1 := {| g_refs := g_refs g; g_excl := setf (g_excl g) b (g_excl g b || false); g_free := g_free g; g_fen := g_fen g; g_bor := g_bor g |}).
       assert (Hh1 : holds g1 (Heap b l)) by (cbn [holds g1 g_refs g_free]; auto).
       eapply okc_mono; [apply (ok_replace_inner (Heap b l) repr_new g1); [exact Hh1|exact Hs]|].
       intros r' g' (-> & S' & Hm). split; [exact S'|]. split; [exact I|].
@@ -191,7 +191,7 @@ Qed.
 Lemma ok_heap_with_capacity c g (Q : option repr -> ghost -> Prop) :
   Q None g ->
   (forall b l, g_refs g b = 0%nat -> g_excl g b = false -> g_free g b = false ->
-     Q (Some (Heap b l)) {| g_refs := setf (g_refs g) b 1%nat; g_excl := setf (g_excl g) b true; g_free := g_free g; g_fen := g_fen g |}) ->
+     Q (Some (Heap b l)) {| g_refs := setf (g_refs g) b 1%nat; g_excl := setf (g_excl g) b true; g_free := g_free g; g_fen := g_fen g; g_bor := g_bor g |}) ->
   okc (heap_with_capacity c) g Q.
 Proof.
   intros Hn Hs. unfold heap_with_capacity. destruct (text_len_new 0) as [l|]; [|exact Hn].
@@ -201,7 +201,7 @@ Qed.
 Lemma ok_heap_with_exact_capacity t c g (Q : option repr -> ghost -> Prop) :
   Q None g ->
   (forall b l, g_refs g b = 0%nat -> g_excl g b = false -> g_free g b = false ->
-     Q (Some (Heap b l)) {| g_refs := setf (g_refs g) b 1%nat; g_excl := setf (g_excl g) b true; g_free := g_free g; g_fen := g_fen g |}) ->
+     Q (Some (Heap b l)) {| g_refs := setf (g_refs g) b 1%nat; g_excl := setf (g_excl g) b true; g_free := g_free g; g_fen := g_fen g; g_bor := g_bor g |}) ->
   okc (heap_with_exact_capacity t c) g Q.
 Proof.
   intros Hn Hs. unfold heap_with_exact_capacity. apply okc_bind. apply ok_heap_with_capacity; [exact Hn|].
@@ -223,12 +223,12 @@ Proof.
   intros v. cbn [okc]. destruct (N.eqb_spec v 1) as [->|Hne].
   - apply okc_bind. apply ok_heap_realloc; [cbn [g_excl]; unfold setf; rewrite Nat.eqb_refl; apply orb_true_r|].
     intros ok. cbn [okc fst holds g_refs g_free]. split; [exact Hs|]. split; [auto|]. intros x. cbn [g_refs]. reflexivity.
-  - set (g1 := {| g_refs := g_refs g; g_excl := setf (g_excl g) b (g_excl g b || false); g_free := g_free g; g_fen := g_fen g |}).
+  - set (g1 := {| g_refs := g_refs g; g_excl := setf (g_excl g) b (g_excl g b || false); g_free := g_free g; g_fen := g_fen g; g_bor := g_bor g |}).
     apply okc_bind. cbn [read okc]. split; [left; exact H1|]. intros t. cbn [okc].
     apply okc_bind. apply ok_heap_with_exact_capacity.
     + cbn [okc fst holds]. split; [exact Hs|]. split; [split; [exact H1|exact H2]|]. intros x. cbn [g1 g_refs]. reflexivity.
     + intros b' l' N1 N2 N3.
-      set (g2 := {| g_refs := setf (g_refs g1) b' 1%nat; g_excl := setf (g_excl g1) b' true; g_free := g_free g1; g_fen := g_fen g1 |}).
+      set (g2 := {| g_refs := setf (g_refs g1) b' 1%nat; g_excl := setf (g_excl g1) b' true; g_free := g_free g1; g_fen := g_fen g1; g_bor := g_bor g1 |}).
       assert (Hbb : b' <> b) by (intros ->; cbn [g1 g_refs] in N1; lia).
       assert (Hh2 : holds g2 (Heap b l)).
       { cbn [holds]. unfold g2, g1. cbn [g_refs g_free]. unfold setf. apply Nat.eqb_neq in Hbb. rewrite Nat.eqb_sym, Hbb. auto. }
@@ -250,7 +250,7 @@ Lemma ok_clone' r g : holds g r -> settled g ->
 Proof.
   intros Hh Hs. destruct r as [d|b l|s l]; cbn [make_shallow_clone holds] in *;
     try (cbn [okc sim nm]; split; [exact Hs|]; split; [exact I|]; split; [exact I|]; split; [exact I|]; intros x; lia).
-  destruct Hh as (H1 & H2). apply okc_bind. cbn [rmw okc]. split; [exact H1|]. intros v. cbn [okc].
+  destruct Hh as (H1 & H2). apply okc_bind. cbn [rmw okc]. split; [left; exact H1|]. intros v. cbn [okc].
   cbn [holds g_refs g_free sim nm]. unfold setf. rewrite Nat.eqb_refl.
   split; [exact Hs|]. split; [split; [lia|exact H2]|]. split; [split; [lia|exact H2]|]. split; [reflexivity|].
   intros x. rewrite (Nat.eqb_sym x b). destruct (Nat.eqb_spec b x) as [->|]; lia.
